@@ -30,6 +30,7 @@ pub fn run(ctx: &mut Ctx, suite: &str) {
         "c10" => c04::run_c10(ctx),
         "c05" => c05::run(ctx),
         "c20c" => c05::run_c20c(ctx),
+        "c20x" => c20::run_c20x(ctx),
         "c03b" => c05::run_c03b(ctx),
         "c08c" => c05::run_c08c(ctx),
         "c08d" => c05::run_c08d(ctx),
@@ -97,6 +98,7 @@ pub fn replay(ctx: &mut Ctx, tag: &str, args: &[&str]) {
         "c19s" => c19::case_set(ctx, args[0], args[1]),
         "c19w" => c19::case_writer(ctx, args[0], args[1], args[2], args[3], args[4]),
         "c20e" => c20::case_error(ctx, args[0]),
+        "c20x" => c20::case_x(ctx, args[0]),
         "c20s" => c20::case_status(ctx, args[0], args[1], args.get(2).copied().unwrap_or("0")),
         _ => eprintln!("unknown case tag {tag}"),
     }
